@@ -247,17 +247,26 @@ def aggregate (op : String) (k : Option Int) (vals : List Val) : Except String V
   | "Min" => .ok (minV nn)
   | "Max" => .ok (maxV nn)
   | "Count" => .ok (.int (dedupV nn).length)
-  | "List" => if nn.isEmpty then .ok .null else .ok (.list nn)
-  | "Set" => if nn.isEmpty then .ok .null else .ok (.list (sortV (dedupV nn)))
+  -- List / Set keep null elements (as JSON_GROUP_ARRAY / DistinctListAgg do); no input at all gives null
+  | "List" => if vals.isEmpty then .ok .null else .ok (.list vals)
+  | "Set" => if vals.isEmpty then .ok .null else .ok (.list (sortV (dedupV vals)))
   | "AnyValue" => .ok (nn.headD .null)
   | _ =>
     -- arrow-based aggregates
-    let pairs := vals.filterMap arrowParts   -- (arg, value)
+    -- (arg, value); rows whose value is null are ignored, like by every other aggregate
+    let pairs := (vals.filterMap arrowParts).filter (fun p => !p.2.isNull)
     let asc := (sortV (pairs.map (fun p => Val.list [p.2, p.1]))).filterMap
       (fun v => match v with | .list [_, a] => some a | _ => none)
+    -- all args whose value is the extreme one (ties: any of them is an admissible result)
+    let winners := fun (best : Option Val) => match best with
+      | none => []
+      | some b => (pairs.filter (fun p => p.2 == b)).map (·.1)
+    let vals' := pairs.map (·.2)
     match op with
     | "ArgMin" => .ok (asc.headD .null)
     | "ArgMax" => .ok (asc.reverse.headD .null)
+    | "ArgMinAny" => .ok (.record [("$any", .list (sortV (dedupV (winners (if vals'.isEmpty then none else some (minV vals'))))))])
+    | "ArgMaxAny" => .ok (.record [("$any", .list (sortV (dedupV (winners (if vals'.isEmpty then none else some (maxV vals'))))))])
     | "ArgMinK" => match k with
       | some kk => if pairs.isEmpty then .ok .null else .ok (.list (asc.take kk.toNat))
       | none => .error "ArgMinK needs k"
